@@ -40,21 +40,29 @@ def _interp_T_at(xs, ys, x):
     return out
 
 
-def _ob_clean(nmax):
+def _ob_clean(nmax, scale=1.0, nmin=2):
     def ob(h):
-        n = h.choice("points", list(range(2, nmax + 1)))
+        n = h.choice("points", list(range(nmin, nmax + 1)))
         # a composite curve as the tables hold it: temperatures strictly descending, enthalpy non-increasing downwards
         y = h.reals("T", n)
         x = h.reals("H", n)
         # TOLSAFE: enthalpies within +-1000 kW; a step is zero or at least 0.02 kW (the code's flatness tests are np.isclose with
         # its default relative tolerance 1e-5 and 'variance < 1e-6'); temperatures at least 1 K apart
         for i in range(n):
-            h.assume(And(x[i] <= 1000, x[i] >= -1000))
+            h.assume(And(x[i] <= 1000 * scale, x[i] >= -1000 * scale))
         for i in range(n - 1):
             h.assume(y[i] - y[i + 1] >= 1)
             h.assume(x[i] >= x[i + 1])
-            h.assume(Or(x[i] == x[i + 1], x[i] - x[i + 1] >= 0.02))
-        h.assume(x[0] - x[n - 1] >= 0.02)                                     # not an entirely flat curve
+            # interior steps may stay small at large magnitudes (the interior test of the code is absolute); the two END steps scale with
+            # the magnitude because the end trimming of the code is relative (np.isclose's default rtol)
+            if scale == 1.0:
+                h.assume(Or(x[i] == x[i + 1], x[i] - x[i + 1] >= 0.02))
+            elif 0 < i < n - 2:
+                h.assume(Or(x[i] == x[i + 1], x[i] - x[i + 1] >= 0.02))
+            else:
+                h.assume(x[i] - x[i + 1] >= 0.02 * scale)          # no flat run at the ends in the large-magnitude obligation
+            h.assume(And(y[i] <= 1000, y[i + 1] >= -1000))
+        h.assume(x[0] - x[n - 1] >= 0.02 * scale)                             # not an entirely flat curve
         yk, xk = misc.clean_composite_curve(_arr(h, y), _arr(h, x))
         yk, xk = list(yk), list(xk)
         m = len(xk)
@@ -95,6 +103,31 @@ def _ob_clean(nmax):
                 t = y[a] + (y[b] - y[a]) * (x[i] - x[a]) / (x[b] - x[a])
                 h.check("dropped_point_within_tolerance_of_kept_polyline", And(y[i] - t <= slack, t - y[i] <= slack))
     return ob
+
+
+def ob_clean_gcc(h):
+    """Net (grand composite) curves are not monotone in enthalpy: every genuine turning point must survive the cleaning."""
+    n = 5
+    y = h.reals("T", n)
+    x = h.reals("H", n)
+    for i in range(n):
+        h.assume(And(x[i] >= 0, x[i] <= 1000000, y[i] <= 1000, y[i] >= -1000))
+    for i in range(n - 1):
+        h.assume(y[i] - y[i + 1] >= 1)
+    h.assume(Or(x[0] - x[1] >= 20, x[1] - x[0] >= 20))         # clearly non-flat ends (the end trimming of the code is relative)
+    h.assume(Or(x[3] - x[4] >= 20, x[4] - x[3] >= 20))
+    for i in (1, 2, 3):
+        h.assume(And(Or(x[i] - x[0] >= 20, x[0] - x[i] >= 20), Or(x[i] - x[4] >= 20, x[4] - x[i] >= 20)))
+    for i in (1, 2):                                            # interior steps: zero or at least 0.02 kW, however large the enthalpies are
+        h.assume(Or(x[i] - x[i + 1] >= 0.02, x[i + 1] - x[i] >= 0.02, x[i] == x[i + 1]))
+    yk, xk = misc.clean_composite_curve(_arr(h, y), _arr(h, x))
+    kept = list(zip(list(xk), list(yk)))
+    for i in (1, 2, 3):
+        turning = Or(And(x[i] - x[i - 1] >= 0.02, x[i] - x[i + 1] >= 0.02), And(x[i - 1] - x[i] >= 0.02, x[i + 1] - x[i] >= 0.02))
+        if turning:
+            h.check("turning_point_of_the_curve_is_kept", any(bool(h.eq(kx, x[i])) and bool(h.eq(ky, y[i])) for kx, ky in kept))
+    h.check("first_point_kept", bool(h.eq(kept[0][0], x[0])) and bool(h.eq(kept[0][1], y[0])))
+    h.check("last_point_kept", bool(h.eq(kept[-1][0], x[4])) and bool(h.eq(kept[-1][1], y[4])))
 
 
 def ob_clean_flat(h):
@@ -169,14 +202,51 @@ def ob_fallback(h):
         sl._get_piecewise_breakpoints, sl._rdp = old
 
 
+def ob_refine_args(h):
+    """_get_piecewise_breakpoints hands the caller's orientation and a tenth of the tolerance to the refinement (callees replaced by recorders)."""
+    hot = h.choice("is_hot_stream", [True, False])
+    n_kept = h.choice("points_kept_by_rdp", [5, 11, 12])
+    eps = 0.1
+    calls = []
+    kept = [[float(i), float(i)] for i in range(n_kept)]
+    import numpy as np
+
+    def f_rdp(curve, epsilon):
+        return np.array(kept)
+
+    def f_refine(curve, pw_points, eps_lb=0.0, hot_stream=True):
+        calls.append((len(pw_points), eps_lb, hot_stream))
+        return pw_points, 0.0
+    old = (sl._rdp, sl._refine_pw_points_for_heating_or_cooling)
+    sl._rdp, sl._refine_pw_points_for_heating_or_cooling = f_rdp, f_refine
+    try:
+        out = sl._get_piecewise_breakpoints(np.array(kept), eps, hot)
+    finally:
+        sl._rdp, sl._refine_pw_points_for_heating_or_cooling = old
+    if n_kept > 10:
+        h.check("refinement_called_once_above_ten_points", len(calls) == 1)
+        h.check("refinement_gets_the_callers_orientation", bool(calls) and calls[0][2] is hot)
+        h.check("refinement_gets_a_tenth_of_the_tolerance", bool(calls) and abs(calls[0][1] - eps / 10) < 1e-15)
+    else:
+        h.check("no_refinement_up_to_ten_points", len(calls) == 0)
+    h.check("result_has_the_kept_points", len(out) == n_kept)
+
+
 def obligations():
     fc = [misc.clean_composite_curve, misc.clean_composite_curve_ends]
     obs = [
         Obligation("C17.clean.b", _ob_clean(4), kind="bounded", bound="composite curves of 2..4 points (temperatures >= 1 K apart, enthalpy steps 0 or > 10 tol), all symbolic",
                    functions=fc, max_paths=200000, expect=("first_kept_is_end_of_leading_flat_run", "kept_points_are_original_points_in_order")),
+        Obligation("C17.clean.large.b", _ob_clean(4, scale=1000.0, nmin=4), kind="bounded", functions=fc, max_paths=200000,
+                   bound="4-point curves with enthalpies up to 1e6 kW whose interior step may be as small as 0.02 kW",
+                   doc="interior vertices survive at large enthalpy magnitudes (the collinearity test is absolute, not relative)"),
+        Obligation("C17.clean.gcc.b", ob_clean_gcc, kind="bounded", functions=fc, max_paths=200000, bound="5-point non-monotone (grand composite) curves, enthalpies up to 1e6 kW, interior steps down to 0.02 kW",
+                   doc="turning points (pocket noses) of a net curve survive the cleaning at any enthalpy magnitude"),
         Obligation("C17.clean.flat.b", ob_clean_flat, kind="bounded", bound="2..3 points, constant enthalpy", functions=[misc.clean_composite_curve_ends]),
         Obligation("C17.rdp3.b", _ob_rdp(3), kind="bounded", bound="polylines of 3 points, all coordinates and epsilon symbolic", functions=[sl._rdp], timeout_ms=30000,
                    expect=("both_end_points_kept",)),
+        Obligation("C17.refine.args", ob_refine_args, kind="proof", functions=[sl._get_piecewise_breakpoints], stubs=("_rdp", "_refine_pw_points_for_heating_or_cooling (recorders)"),
+                   doc="call-site contract: the one-sided refinement receives is_hot_stream and epsilon / 10"),
         Obligation("C17.fallback", ob_fallback, kind="proof", functions=[sl.get_piecewise_data_points], stubs=("_get_piecewise_breakpoints", "_rdp")),
     ]
     obs += split(Obligation("C17.clean5.b", _ob_clean(5), kind="bounded", tier="thorough", bound="composite curves of 5 points", functions=fc, max_paths=2000000), points=[5])
